@@ -931,12 +931,19 @@ def run_peer_change(ctx, op):
             ctx.stats['abstain']['file_not_named_as_output'] += 1
             return
         base = os.path.basename(f['path'])
-        test = 'test_' + ''.join(c if c.isalnum() else '_' for c in base)
-        if sum(1 for g in files if os.path.basename(g['path']) == base) > 1:
-            # colliding basenames: test names get a numeric qualifier whose
-            # assignment order is not part of the statement
-            ctx.stats['abstain']['ambiguous_test_name_for_file'] += 1
-            return
+        # "the test for that file" is the method of the generated script
+        # whose assertion names the file as its actual; the method *name* is
+        # gentest's choice (numeric qualifiers for clashes) and not part of
+        # the statement
+        test = script_test_for(gen['src'], f['path'])
+        if test is None:
+            test = 'test_' + ''.join(c if c.isalnum() else '_' for c in base)
+            if sum(1 for g in files
+                   if os.path.basename(g['path']) == base) > 1:
+                ctx.stats['abstain']['ambiguous_test_name_for_file'] += 1
+                return
+        else:
+            ctx.stats['probes']['file_test_identified_from_script'] += 1
         if k == 'file_missing':
             prog['effects'].remove(f)
             ch.update(applied='yes', test=test,
@@ -964,6 +971,25 @@ def run_peer_change(ctx, op):
     ctx.nontrivial = True
     ctx.events.append({'i': op['i'], 'op': 'peer_change', 'kind': k,
                        'what': ctx.W.scrub(ch.get('what'))})
+
+
+def script_test_for(src, path):
+    """Name of the test method in the generated script whose assertion has
+    this output file (relative to cwd, or $TMPDIR/...) as its actual."""
+    if path.startswith('$TMPDIR/'):
+        lit = 'tmpdir, %r)' % path[len('$TMPDIR/'):]
+    else:
+        lit = 'cwd, %r)' % path
+    found = None
+    for m in re.finditer(r'^    def (test_\w+)\(self\):\n((?:(?!    def )'
+                         r'(?!if __name__).*\n)*)', src, re.M):
+        body = m.group(2)
+        k = body.find('Correct(')
+        if k >= 0 and body[k:].split(',\n')[0].rstrip().endswith(lit):
+            if found is not None and found != m.group(1):
+                return None         # two differently named tests: ambiguous
+            found = m.group(1)
+    return found
 
 
 def covered(refs, path):
